@@ -114,6 +114,10 @@ def corpus():
             {'case': {'tree': base + [f([':p.txt'], 'PARAMFILE')], 'mount': '/s', 'omit': [], 'reqs': reqs}},                       # was: a param route answering every sibling path
             {'case': {'tree': base, 'mount': '/s', 'omit': [], 'reqs': reqs, 'links': [['link.txt', 'outside/secret.txt']]}},      # was: an outside file served
             {'case': {'tree': base, 'mount': '/s', 'omit': [], 'reqs': reqs + [hx('/s/shared/secret.txt'), hx('/s/shared')], 'links': [['shared', 'outside']]}},          # a link to a directory outside
+            # a link into a SIBLING of the served directory whose name begins with the directory's name (pub2, pub-old, pub.bak, pubs): outside it all the same
+            {'case': {'tree': base, 'mount': '/s', 'omit': [], 'reqs': reqs + [hx(p) for p in ['/s/link.txt', '/s/2/secret.txt', '/s/pub2/secret.txt', '/s/secret.txt', '/2/secret.txt']], 'links': [['link.txt', 'pub2/secret.txt']]}},
+            {'case': {'tree': base, 'mount': '/s', 'omit': [], 'reqs': reqs + [hx(p) for p in ['/s/old.txt', '/s/-old/secret.txt', '/s/s/secret.txt', '/s/.bak/secret.txt', '/s/b.txt', '/s/c.txt']],
+                      'links': [['old.txt', 'pub-old/secret.txt'], ['b.txt', 'pub.bak/secret.txt'], ['c.txt', 'pubs/secret.txt']]}},
             {'case': {'tree': base, 'mount': '/s', 'omit': [], 'reqs': reqs + [hx('/s/sub/shared/secret.txt'), hx('/s/sub/l.txt')], 'links': [['sub/shared', 'outside'], ['sub/l.txt', 'outside/secret.txt']]}},
             {'case': {'tree': [f(['docs', 'search-index.html'], 'SI'), f(['docs', 'a.txt'], 'T'), f(['myindex.html'], 'MI')], 'mount': '/site', 'omit': [], 'reqs': [hx(p) for p in ['/site/docs', '/site/docs/', '/site/docs/search-index.html', '/site', '/site/myindex.html', '/site/docs/index.html']]}},
             {'case': {'tree': [f(['noext'], 'x')], 'mount': '/s', 'omit': [], 'reqs': reqs[:3]}},
